@@ -51,6 +51,12 @@ def get_classes():
     so = M.so
     SyncObj, replicated = so.SyncObj, so.replicated
 
+    class AppError(Exception):
+        pass
+
+    class AppSyncObjError(so.SyncObjException):
+        pass
+
     class SimObj(SyncObj):
         def __init__(self, vh, me, others, conf, consumers=None):
             # harness fields go BEFORE SyncObj.__init__: attributes that exist when it
@@ -87,7 +93,21 @@ def get_classes():
         @replicated
         def boom(self, tag):
             self._rec(tag)
-            raise ValueError('boom %d' % tag)
+            # the kind of exception is a function of the command (the same on every replica): built-in ones, an
+            # application-defined one, and the library's own public exception class and a subclass of it
+            # (what an application raises for a refusal, or what a nested synchronous call raises on time-out)
+            k = tag % 6
+            if k == 0:
+                raise ValueError('boom %d' % tag)
+            if k == 1:
+                raise KeyError(tag)
+            if k == 2:
+                raise AppError('boom %d' % tag)
+            if k == 3:
+                raise so.SyncObjException('boom %d' % tag)
+            if k == 4:
+                raise AppSyncObjError('boom %d' % tag)
+            raise AssertionError('boom %d' % tag)
 
     _classes['SimObj'] = SimObj
 
